@@ -412,6 +412,32 @@ def default_cases(ctx):
                               "Range(%r, default=%r) is %s but Range(%r) is %s" % (d, f, impl_repr, applies, applies_repr), case)
 
 
+def blank_decimal_cases(ctx):
+    """`DecimalRange("")` and friends: no items, every value is accepted, non-decimal texts are refused as values"""
+    from cutplace import errors, ranges
+    import decimal
+    blanks_ = ["", " ", "\t ", "   "]
+    outs = core.run_driver([line("drange.model", enc(b), "~") for b in blanks_])
+    for b, mo in zip(blanks_, outs):
+        tag, val = impl_drange(b, ["0", "-1.5", "1e3"])
+        ctx.count(key=("blank-decimal", b), nontrivial=True, branch="blank-decimal:" + mo.split(" ")[0])
+        if not (tag == "ok" and val is None and mo.strip() == "ok none"):
+            ctx.violation("C01:decimal:blank", "DecimalRange(%r): implementation %s %s, model %s" % (b, tag, val, mo), {"text": b, "model": mo})
+    # the value handed to validate() must be a decimal number: anything else is a range value error, not an exception of decimal
+    rng = ranges.DecimalRange("0.5...9.75")
+    for bad in ("abc", "", "1,5", "--1", "1e"):
+        try:
+            rng.validate("x", bad)
+            outcome = "accepted"
+        except errors.RangeValueError:
+            outcome = "range-error"
+        except (decimal.DecimalException, Exception) as error:  # noqa
+            outcome = core.classify_exception(error)
+        ctx.count(key=("bad-decimal-value", bad), nontrivial=True, branch="bad-decimal-value:" + outcome.split(":")[0])
+        if outcome != "range-error":
+            ctx.violation("C01:decimal:bad-value", "DecimalRange('0.5...9.75').validate(%r): %s" % (bad, outcome), {"value": bad})
+
+
 def run(ctx):
     rnd = ctx.rnd
     ctx.rule = ("exhaustive: all 1-2 item descriptions with limits in {-2..2, none} x 3 separators x values -4..4 (plain decimal spelling); "
@@ -445,6 +471,7 @@ def run(ctx):
     for i in range(0, len(cases), 20000):
         check_cases(ctx, cases[i:i + 20000])
     decimal_cases(ctx)
+    blank_decimal_cases(ctx)
     default_cases(ctx)
     # the hypothesis `BoundedLimits` of C01_parse_render: CPython's int() refuses decimal strings of more than 4300 digits
     for ndigits, inside in ((4300, True), (4301, False)):
